@@ -219,6 +219,43 @@ def rho_cases(mode):
     return out
 
 
+def named_alt_cases(mode, tier):
+    """recursive specifications whose disjunct lists its alternatives BY NAME, on graphs of depth n where
+    every alternative fails deep down: the work must stay linear in n (each failed (object, alternative)
+    pair is remembered); without that it is 2^n and the watchdog of the runner fires"""
+    A_, B_, C_ = b'A', b'B', b'C'
+    X, Pn, Qn, Rn = ('@', 'X'), ('@', 'P'), ('@', 'Q'), ('@', 'R')
+    integer = rep(('p', 'i'))
+    fams = [
+        # X = P | Q, P = << /A X >>, Q = << /A X /B int? >>  on a chain of n dictionaries ending in an integer
+        ('dict', {'X': rep(('O', (Pn, Qn))), 'P': rep(('D', ((A_, X, '+'),), None)),
+                  'Q': rep(('D', ((A_, X, '+'), (B_, integer, '?')), None))}),
+        # three alternatives, one with a '*' entry
+        ('dict', {'X': rep(('O', (Pn, Qn, Rn))), 'P': rep(('D', ((A_, X, '+'),), None)),
+                  'Q': rep(('D', ((A_, X, '+'), (B_, integer, '?')), None)),
+                  'R': rep(('D', ((A_, X, '+'), (C_, rep(('p', 'm')), '-')), (rep(('p', 'n')), '?')))}),
+        # arrays: P = [X ...], Q = [X] on nested one-element arrays ending in an integer
+        ('arr', {'X': rep(('O', (Pn, Qn))), 'P': rep(('A', X, None)), 'Q': rep(('H', (X,)))}),
+    ]
+    depths = [2, 5, 8, 12, 16, 20, 24, 32, 40, 48, 60] if tier == 'thorough' else [3, 8, 16, 24, 40, 60]
+    out = []
+    for kind, tctx in fams:
+        for n in depths:
+            for last in (('i', 5), ('n',)):        # every alternative fails at the end / (dict family) too
+                if kind == 'dict':
+                    ctx = {}
+                    for k in range(1, n + 1):
+                        ctx[(k, 0)] = ('D', ((A_, ('R', k + 1, 0)),))
+                    ctx[(n + 1, 0)] = last
+                    out.append(T.mk_case(mode, ctx, tctx, X, ('R', 1, 0)))
+                else:
+                    o = last
+                    for _ in range(n):
+                        o = ('A', (o,))
+                    out.append(T.mk_case(mode, {}, tctx, X, o))
+    return out
+
+
 REF_LOOPS = [
     's 1.0=R1.0 - i R1.0',
     's 1.0=R2.0;2.0=R1.0 - D() R1.0',
@@ -286,7 +323,7 @@ def cases(tier, rng):
     out = list(dict.fromkeys(out))
     # the chains with a tail before their cycle, spread over the whole list (a hang costs one
     # watchdog period of the shard it is in)
-    rho = rho_cases('s')
+    rho = rho_cases('s') + named_alt_cases('s', tier)
     gap = max(1, len(out) // (len(rho) + 1))
     for k, c in enumerate(rho):
         out.insert(min(len(out), (k + 1) * gap + k), c)
@@ -308,7 +345,8 @@ RULE = ('every directed graph over 1 and 2 indirect objects (nodes << /K [kids] 
         'recursive in both directions, mutually recursive through two names with a * entry, recursive disjunction, recursive '
         'heterogeneous arrays); graphs over 3 objects exhaustively (thorough) or sampled, over 4 objects random, with reference '
         'chains, self-referential objects, duplicated kids; reference chains with a tail of 1-3 before a cycle of 1-3 (as root, array element, '
-        'dictionary value, kid of the recursive page-tree type); plus random specification/object pairs of C08.  Every case is run 7 times '
+        'dictionary value, kid of the recursive page-tree type); recursive specifications whose disjunct names its alternatives (X = P | Q, '
+        'P = <</A X>>, Q = <</A X /B int?>>, and two variants) on chains of depth up to 60 where every alternative fails deep down; plus random specification/object pairs of C08.  Every case is run 7 times '
         '(fresh / same / used TypeCheckContext with a same-named decoy check) under a watchdog; '
         'non-trivial = recursive specification over a context with references')
 TRUSTED = ['model of pdf_type_check.rs in coq/Model/TypeCheck.v (hand transcription, validated by the C08/C09 correspondence runs)',
